@@ -758,14 +758,13 @@ class Interp:
         self.templates = {}
         self.inline_calls = []   # (caller, callee, line)
         self.field_types = {}
-        try:
-            import schema
-            for sname, fields in schema.load().structs.items():
-                if sname.startswith('naga::'):
-                    for fname, fty in fields:
-                        self.field_types.setdefault(fname, set()).add(fty)
-        except Exception:
-            pass
+        import schema       # a failure to read the pinned naga sources is an engine failure, never a silently weaker analysis
+        for sname, fields in schema.load().structs.items():
+            if sname.startswith('naga::'):
+                for fname, fty in fields:
+                    self.field_types.setdefault(fname, set()).add(fty)
+        if not self.field_types:
+            raise RuntimeError('no struct fields read from the pinned naga source')
 
     # --- helpers ---------------------------------------------------------------------------------------------------
     def resolve(self, segs):
